@@ -13,8 +13,10 @@ CONSTANTS H,        \* set of handles
 VARIABLES pk,       \* handle -> packet value, list value, or None
           buf,      \* handle -> byte string
           prov,     \* handle -> the value whose Marshal produced buf[h], or None
-          memo      \* handle -> results already observed for pk[h] (for repeatability, C18)
-vars == << pk, buf, prov, memo >>
+          memo,     \* handle -> results already observed for pk[h] (for repeatability, C18)
+          fromdec,  \* handles whose packet was produced by a decoder (C09 quantifies over these)
+          provdec   \* handles whose buffer was marshalled from such a packet
+vars == << pk, buf, prov, memo, fromdec, provdec >>
 
 None   == [k |-> "NONE"]
 NoRes  == [ok |-> FALSE, out |-> << >>, panic |-> FALSE, none |-> TRUE]
@@ -22,13 +24,14 @@ NoMemo == [marshal |-> NoRes, size |-> -1, dest |-> << -1 >>, header |-> None, s
 
 Init == /\ pk = [h \in H |-> None] /\ buf = [h \in H |-> << >>]
         /\ prov = [h \in H |-> None] /\ memo = [h \in H |-> NoMemo]
+        /\ fromdec = {} /\ provdec = {}
 
 \* ---- reference results: what the specification itself would return ----
 RefMarshal(v) == IF WFAny(D0, v) THEN [ok |-> TRUE, out |-> EncAny(D0, v), panic |-> FALSE]
                  ELSE [ok |-> FALSE, out |-> << >>, panic |-> FALSE]
 RefOf(r)      == IF r.st = "ok" THEN [ok |-> TRUE, out |-> r.v, panic |-> FALSE, slow |-> FALSE, alloc |-> 0]
                  ELSE [ok |-> FALSE, out |-> None, panic |-> FALSE, slow |-> FALSE, alloc |-> 0]
-RefDecode(k, b)  == RefOf(DecAs(D0, k, b))
+RefDecode(k, b)  == RefOf(DecEntry(D0, k, b))
 RefDatagram(b)   == LET r == DecDatagram(D0, b) IN
                     IF r.st = "ok" THEN [ok |-> TRUE, out |-> r.v, panic |-> FALSE, slow |-> FALSE, alloc |-> 0]
                     ELSE [ok |-> FALSE, out |-> << >>, panic |-> FALSE, slow |-> FALSE, alloc |-> 0]
@@ -38,6 +41,7 @@ SameMarshal(a, b) == a.ok = b.ok /\ (a.ok => a.out = b.out)
 MarshalGuard(D, h, res) ==
   MarshalTags(D, pk[h], res)
   \cup (IF "none" \notin DOMAIN memo[h].marshal /\ ~SameMarshal(memo[h].marshal, res) THEN {"C18:marshal_not_repeatable"} ELSE {})
+  \cup (IF res.panic /\ h \in fromdec /\ pk[h].k = "LIST" THEN {"C09:remarshal_panic"} ELSE {})
 SizeGuard(D, h, out) ==
   SizeTags(D, pk[h], out, memo[h].marshal)
   \cup (IF memo[h].size # -1 /\ memo[h].size # out THEN {"C18:size_not_repeatable"} ELSE {})
@@ -50,44 +54,50 @@ StringGuard(h, res) ==
   \cup (IF ~res.panic /\ memo[h].str # << -1 >> /\ memo[h].str # res.out THEN {"C18:string_not_repeatable"} ELSE {})
 UnmarshalGuard(D, k, b, res) ==
   DecodeTags(D, k, buf[b], res)
-  \cup (IF prov[b].k = k /\ WFAny(D, prov[b]) THEN RtOwnTags(D, prov[b], res) ELSE {})
+  \cup (IF prov[b].k = k /\ k # "CP" /\ WFAny(D, prov[b]) THEN RtOwnTags(D, prov[b], res) ELSE {})
 DatagramGuard(D, b, res) ==
   DatagramTags(D, buf[b], res)
   \cup (IF prov[b].k # "NONE" /\ prov[b].k # "CP" /\ WFAny(D, prov[b]) THEN RtDatagramTags(D, prov[b], res) ELSE {})
+  \cup (IF b \in provdec /\ prov[b].k = "LIST" THEN StableTags(D, prov[b], res) ELSE {})
 
 \* ---- actions --------------------------------------------------------------
 Build(h, v) ==
-  /\ pk' = [pk EXCEPT ![h] = v] /\ memo' = [memo EXCEPT ![h] = NoMemo] /\ UNCHANGED << buf, prov >>
+  /\ pk' = [pk EXCEPT ![h] = v] /\ memo' = [memo EXCEPT ![h] = NoMemo] /\ fromdec' = fromdec \ {h}
+  /\ UNCHANGED << buf, prov, provdec >>
 SetBuf(h, b) ==
-  /\ buf' = [buf EXCEPT ![h] = b] /\ prov' = [prov EXCEPT ![h] = None] /\ UNCHANGED << pk, memo >>
+  /\ buf' = [buf EXCEPT ![h] = b] /\ prov' = [prov EXCEPT ![h] = None] /\ provdec' = provdec \ {h}
+  /\ UNCHANGED << pk, memo, fromdec >>
 Marshal(h, res) ==
   /\ pk[h].k # "NONE"
   /\ MarshalGuard(D0, h, res) = {}
   /\ buf'  = [buf EXCEPT ![h] = IF res.ok THEN res.out ELSE << >>]
   /\ prov' = [prov EXCEPT ![h] = IF res.ok THEN pk[h] ELSE None]
   /\ memo' = [memo EXCEPT ![h].marshal = res]
-  /\ UNCHANGED pk
+  /\ provdec' = IF res.ok /\ h \in fromdec THEN provdec \cup {h} ELSE provdec \ {h}
+  /\ UNCHANGED << pk, fromdec >>
 SizeOf(h, out) ==
   /\ pk[h].k # "NONE" /\ SizeGuard(D0, h, out) = {}
-  /\ memo' = [memo EXCEPT ![h].size = out] /\ UNCHANGED << pk, buf, prov >>
+  /\ memo' = [memo EXCEPT ![h].size = out] /\ UNCHANGED << pk, buf, prov, fromdec, provdec >>
 DestOf(h, out) ==
   /\ pk[h].k # "NONE" /\ DestGuard(D0, h, out) = {}
-  /\ memo' = [memo EXCEPT ![h].dest = out] /\ UNCHANGED << pk, buf, prov >>
+  /\ memo' = [memo EXCEPT ![h].dest = out] /\ UNCHANGED << pk, buf, prov, fromdec, provdec >>
 HeaderOf(h, out) ==
   /\ pk[h].k # "NONE" /\ HeaderGuard(D0, h, out) = {} /\ UNCHANGED vars
 StringOf(h, res) ==
   /\ pk[h].k # "NONE" /\ StringGuard(h, res) = {}
-  /\ memo' = [memo EXCEPT ![h].str = res.out] /\ UNCHANGED << pk, buf, prov >>
+  /\ memo' = [memo EXCEPT ![h].str = res.out] /\ UNCHANGED << pk, buf, prov, fromdec, provdec >>
 Unmarshal(k, b, h, res) ==
   /\ UnmarshalGuard(D0, k, b, res) = {}
   /\ pk' = [pk EXCEPT ![h] = IF res.ok THEN res.out ELSE None]
   /\ memo' = [memo EXCEPT ![h] = NoMemo]
-  /\ UNCHANGED << buf, prov >>
+  /\ fromdec' = IF res.ok THEN fromdec \cup {h} ELSE fromdec \ {h}
+  /\ UNCHANGED << buf, prov, provdec >>
 Datagram(b, h, res) ==
   /\ DatagramGuard(D0, b, res) = {}
   /\ pk' = [pk EXCEPT ![h] = IF res.ok THEN [k |-> "LIST", pkts |-> res.out] ELSE None]
   /\ memo' = [memo EXCEPT ![h] = NoMemo]
-  /\ UNCHANGED << buf, prov >>
+  /\ fromdec' = IF res.ok THEN fromdec \cup {h} ELSE fromdec \ {h}
+  /\ UNCHANGED << buf, prov, provdec >>
 
 \* ---- design-level theorems, checked by TLC on the reference machine ------
 \* (stated over the state so they are invariants of every reachable state)
